@@ -21,7 +21,8 @@
 (*              when the expanded command line was run by the real          *)
 (*              /bin/sh -c (one record per process, in order).              *)
 (* kind "test"  one test() of a real meson_test_setup.dat: obs = [argv,     *)
-(*              env] as unpickled; real as above, from a real `meson test'. *)
+(*              env] as unpickled; real: one record per execution by a real *)
+(*              `meson test --repeat N' (runs = N).                         *)
 (* kind "rspreal" a response-file text and the arguments the real gcc driver    *)
 (*              read from it (validates RspSplit).                          *)
 (* kind "refused"  a project that only differs from an accepted one by the  *)
@@ -163,7 +164,26 @@ JudgeRspReal(c) ==
     ELSE IF r.args # c.real THEN V(c, "ModelRsp:Argv", "gcc", FirstDiff(r.args, c.real), 0, r.args, c.real)
     ELSE OkV(c)
 
-JudgeTest(c) == JudgeFinals(c, <<Fin("test", c.obs.argv, c.obs.env)>>, "test")
+\* A test is executed c.runs times by the real `meson test' (--repeat: one runner per iteration, all built from
+\* the same un-pickled TestSerialisation): EVERY execution must have received the serialised argv and environment.
+RECURSIVE BadRun(_, _, _)
+BadRun(c, f, k) ==
+    IF k > Len(c.real) THEN 0
+    ELSE IF c.real[k].argv # f.argv
+            \/ \E m \in 1..Len(c.env) : EnvValue(f.env, c.env[m][1]) # EnvValue(c.real[k].env, c.env[m][1])
+         THEN k ELSE BadRun(c, f, k + 1)
+JudgeTest(c) ==
+    LET f == Fin("test", c.obs.argv, c.obs.env) IN
+    IF c.has_real = 1 /\ Len(c.real) # c.runs
+    THEN V(c, "RuntimeProcessCount", "test", Len(c.real), 0, <<>>, <<>>)
+    ELSE IF c.has_real = 1 /\ BadRun(c, f, 1) # 0
+    THEN LET k == BadRun(c, f, 1) IN
+         IF c.real[k].argv # f.argv
+         THEN LET d == FirstDiff(f.argv, c.real[k].argv) IN
+              V(c, IF Len(f.argv) = Len(c.real[k].argv) THEN "RuntimeArgv" ELSE "RuntimeArgCount", "test", d, k,
+                <<At(f.argv, d)>>, <<At(c.real[k].argv, d)>>)
+         ELSE V(c, "RuntimeEnv", "test", 0, k, <<>>, <<>>)
+    ELSE JudgeFinals([c EXCEPT !.has_real = 0], <<f>>, "test")
 
 Judge(c) ==
     IF c.kind = "fn" THEN JudgeOuts(c, 1)
